@@ -284,6 +284,7 @@ func (w *World) CheckAll(rec *ScanRecord) []Violation {
 	out = append(out, w.M11(rec)...)
 	out = append(out, w.M12(rec)...)
 	out = append(out, w.M13(rec)...)
+	out = append(out, w.M14(rec)...)
 	out = append(out, w.M15(rec)...)
 	out = append(out, w.M19(rec)...)
 	out = append(out, w.M20(rec)...)
@@ -734,6 +735,12 @@ func (w *World) M07(rec *ScanRecord) []Violation {
 			if nreq > 0 && K+R > ex.Need+1 {
 				out = append(out, viol("C07", "remainder-too-large", "group %d: need %d, untainted %d, then requested %d above the real desired capacity", gr.G, ex.Need, K, R))
 			}
+			if targets, _ := requestedTargets(w, rec, gr); nreq > 0 && K+R < ex.Need && targets[0] < B {
+				out = append(out, viol("C07", "remainder-too-small", "group %d: need %d, untainted %d, requested only %d although the target %d stays below the bound %d", gr.G, ex.Need, K, R, targets[0], B))
+			}
+			if nreq == 0 && K < ex.Need && K == P && cur < B {
+				out = append(out, viol("C07", "no-request-for-remainder", "group %d: need %d, untainted all %d tainted nodes, desired %d below the bound %d, yet no cloud request", gr.G, ex.Need, K, cur, B))
+			}
 		}
 	}
 	return out
@@ -951,6 +958,26 @@ func (w *World) M13(rec *ScanRecord) []Violation {
 	return out
 }
 
+// M14: what the real listers hand to the controller is exactly the documented attribution
+// (C14, end-to-end half): the pod and node count gauges of a scan equal the reference counts.
+func (w *World) M14(rec *ScanRecord) []Violation {
+	var out []Violation
+	for _, gr := range rec.Groups {
+		if !gr.Processed || gr.ListFault || gr.Gauge["pods"] == GaugeUnset {
+			continue
+		}
+		if got := int(gr.Gauge["nodes"]); got != len(gr.GV.Nodes) {
+			out = append(out, viol("C14", "node-attribution-in-scan", "group %d: the scan saw %d nodes, the documented attribution gives %d", gr.G, got, len(gr.GV.Nodes)))
+		}
+		got := int(gr.Gauge["pods"])
+		lo, hi := len(gr.GV.Pods), len(gr.GV.Pods)+len(gr.GV.MaybePods)
+		if got < lo || got > hi {
+			out = append(out, viol("C14", "pod-attribution-in-scan", "group %d: the scan saw %d pods, the documented attribution gives %d (plus %d undecided)", gr.G, got, lo, hi-lo))
+		}
+	}
+	return out
+}
+
 func taintsEqualMultiset(a, b []v1.Taint) bool {
 	if len(a) != len(b) {
 		return false
@@ -1092,6 +1119,24 @@ func (w *World) M19(rec *ScanRecord) []Violation {
 				if batchFailed {
 					out = append(out, viol("C19", "k8s-delete-after-failed-batch", "group %d: %s follows a failed termination in the same batch", gr.G, e.String()))
 				}
+			}
+		}
+	}
+	// a batch that would breach the ASG minimum is refused as a whole: no terminate call at all
+	for _, gr := range rec.Groups {
+		var calls []sim.Entry
+		for _, e := range gr.Seg {
+			switch e.Kind {
+			case sim.ATerminateInASG:
+				calls = append(calls, e)
+			case sim.MDeleteNodes:
+				if len(calls) > 0 && calls[0].ASG != "" {
+					D, min, b := calls[0].PreDesired, calls[0].PreMin, int64(len(e.Names))
+					if D <= min || D-b < min {
+						out = append(out, viol("C19", "batch-not-refused", "group %d: DeleteNodes of %d nodes started although the group's desired capacity was %d with minimum %d: %s", gr.G, b, D, min, calls[0].String()))
+					}
+				}
+				calls = nil
 			}
 		}
 	}
